@@ -203,10 +203,11 @@ func (c *chatHandler) handleSessionCommand(packet *chat.SessionPlayerCommand, un
 			return nil
 		}
 		return (&chat.Builder{
-			Protocol:  c.player.Protocol(),
-			Message:   "/" + newCommand,
-			Sender:    c.player.ID(),
-			Timestamp: packet.Timestamp,
+			Protocol:         c.player.Protocol(),
+			Message:          "/" + newCommand,
+			Sender:           c.player.ID(),
+			Timestamp:        packet.Timestamp,
+			LastSeenMessages: packet.LastSeenMessages,
 		}).ToServer()
 	}
 
